@@ -1,14 +1,35 @@
 /-
-  Property monitors evaluated on traces (implementation or model).
+  Evaluates the property monitors of `Model/Monitor.lean` on observed traces.
 -/
 import UpdaterModel.Driver.Proto
+import UpdaterModel.Model.Monitor
 
 namespace Updater.Judge
 open Updater Updater.Proto
 
-/-- Verdict: `none` = the trace is accepted; `some (step, reason)` = first rejection. -/
+def viewOfObs (o : Obs) : View :=
+  { ret := o.ret, net := o.net, sj := o.sj, pj := o.pj,
+    pdir := o.pd.isSome,
+    arts := match o.pd with | some (a, _) => a | none => [],
+    junk := match o.pd with | some (_, j) => j | none => [] }
+
+/-- Verdict: `none` = accepted; `some (step, reason)` = first rejection. -/
 abbrev Verdict := Option (Nat × String)
 
-def judgeAll (_env : Env) (_tr : List (Op × Obs)) : List (String × Verdict) := []
+def judgeAll (env : Env) (libs : List (String × Bytes)) (tr : List (Op × Obs)) : List (String × Verdict) :=
+  let vt := tr.map fun (op, o) => (op, viewOfObs o)
+  [ ("C01", mon01.run env mon01.init 0 View.empty vt),
+    ("C02", mon02.run env mon02.init 0 View.empty vt),
+    ("C03", mon03.run env mon03.init 0 View.empty vt),
+    ("C05", (mon05 libs).run env (mon05 libs).init 0 View.empty vt),
+    ("C08", mon08.run env mon08.init 0 View.empty vt),
+    ("C09", mon09.run env mon09.init 0 View.empty vt),
+    ("C10", mon10.run env mon10.init 0 View.empty vt),
+    ("C13", mon13.run env mon13.init 0 View.empty vt),
+    ("C14", mon14.run env mon14.init 0 View.empty vt),
+    ("C17", mon17.run env mon17.init 0 View.empty vt),
+    ("C18", mon18.run env mon18.init 0 View.empty vt),
+    ("C19", mon19.run env mon19.init 0 View.empty vt),
+    ("C20", mon20.run env mon20.init 0 View.empty vt) ]
 
 end Updater.Judge
